@@ -444,6 +444,8 @@ func pmApply(s *pState, op string) (bool, *core.Fail) {
 	}
 	s.Init[r] = true
 	s.M[r] = want
+	enc := ref.Encode(want)
+	pmReached.Store(enc, true)
 	if f := pmCheckReg(recv, want); f != nil {
 		return false, core.Failf("%s: %s", op, f.Msg)
 	}
@@ -460,6 +462,17 @@ func newPointMachine(name, mode string, np int, fam map[string]bool) *core.Machi
 		Apply: pmApply,
 	}
 	return m.Register()
+}
+
+// pmReached: distinct model points that occurred as results (non-vacuity).
+var pmReached sync.Map
+
+func pmReportReached(ctx *core.Ctx) {
+	pmReached.Range(func(k, _ any) bool {
+		e := k.([32]byte)
+		ctx.Distinct("nontrivial:model-points-reached", e[:])
+		return true
+	})
 }
 
 var famAll = map[string]bool{"set": true, "arith": true, "mult": true}
@@ -488,4 +501,5 @@ func runC12(ctx *core.Ctx) {
 		c12Full.BFS(ctx, 2, 6_000_000)
 		c12Reduced.BFS(ctx, 3, 12_000_000)
 	}
+	pmReportReached(ctx)
 }
